@@ -23,7 +23,7 @@ class C11(EngineProp):
     profiles = ['loss']
     length = (3, 22)
     technique = 'Lean 4 proof (stop_all over the stream table, any table content) + event-level differential correspondence with loss/close injected at any point'
-    level_text = ('lost_spec (closed form of stop_all_streams + on_close for any well-formed state), c11_pending_request_response_failed, c11_pending_subscriber_failed, c11_producers_cancelled, c11_each_signal_once, c11_on_close_once, c11_silent_after and c11_close_stops_what_is_registered (close() - stop_all_streams alone, in any state, also after the loss - empties the table and fails every pending awaitable / subscriber: the repair of F20) are kernel-checked on the engine model, for every table content; loss by EOF, transport error or close() is injected at any point of generated scripts against a real endpoint and the model is replayed on the observed entry-point sequence.')
+    level_text = ('c11_every_stream_unregistered_and_sweep_goes_on / c11_requester_gets_the_error / c11_disposable_is_disposed (Props/C11Source.lean) are read off the per-stream body of StreamControl.stop_all_streams as compiled from stream_control.py (with its try / except / finally) on every run. lost_spec (closed form of stop_all_streams + on_close for any well-formed state), c11_pending_request_response_failed, c11_pending_subscriber_failed, c11_producers_cancelled, c11_each_signal_once, c11_on_close_once, c11_silent_after and c11_close_stops_what_is_registered (close() - stop_all_streams alone, in any state, also after the loss - empties the table and fails every pending awaitable / subscriber: the repair of F20) are kernel-checked on the engine model, for every table content; loss by EOF, transport error or close() is injected at any point of generated scripts against a real endpoint and the model is replayed on the observed entry-point sequence.')
     level_note = 'Trusted: as C07; a cut while a user coroutine handler is suspended mid-await is represented only as "handler pending".'
     design_ref = '§5 C11'
     rule = ('as C07, with orderly EOF, transport error or explicit close() injected after 3..22 groups on any mix of pending interactions in both roles, followed by further '
